@@ -121,6 +121,10 @@ structure Mapper where
   mp : String → String
   um : String → String
   umA : String → String
+  /-- `unmap_qname(name, xmlns=…)` (namespaces.py:330-333): an element name un-mapped under additional
+      declarations — the ones that the data of a child carries (base.py:476-481: the default convention resolves
+      the key of EACH child item with that item's own declarations) -/
+  umX : List (String × String) → String → String := fun _ s => um s
 
 inductive Err where
   | typeErr        -- XMLSchemaTypeError / TypeError   (caught by raw_encode → validation error)
